@@ -204,7 +204,10 @@ static int do_replay(const Str &path, bool quiet) {
     }
     if (ctx.viols.size() != ctx2.viols.size()) { printf("REPLAY-NONDETERMINISTIC %s\n", path.c_str()); return 2; }
     for (size_t i = 0; i < ctx.viols.size(); i++)
-        if (ctx.viols[i].detail != ctx2.viols[i].detail || ctx.viols[i].finding != ctx2.viols[i].finding) { printf("REPLAY-NONDETERMINISTIC %s\n", path.c_str()); return 2; }
+        if (ctx.viols[i].finding != ctx2.viols[i].finding) { printf("REPLAY-NONDETERMINISTIC %s\n", path.c_str()); return 2; }
+    // Both replays violate, with the same classification, but describe it differently: the case fails every time, and what differs is what the
+    // library read from memory it does not own (heap contents, addresses).  That is a reproduced violation, not a harness that cannot replay.
+    for (size_t i = 0; i < ctx.viols.size(); i++) if (ctx.viols[i].detail != ctx2.viols[i].detail) { if (!quiet) printf("note: two replays of %s both violate but differ in detail (indeterminate memory was read)\n", path.c_str()); break; }
     if (!quiet) {
         for (auto &v : ctx.viols) printf("replayed: property=%s finding=%s case=%s :: %s\n", prop.c_str(), v.finding.empty() ? "-" : v.finding.c_str(), cutp(esc(v.enc)).c_str(), cutp(esc(v.detail), 1200).c_str());
         if (ctx.viols.empty()) printf("replayed: property=%s holds on this case\n", prop.c_str());
